@@ -94,7 +94,7 @@ def fidelity(n=4):
         argv, prefixes = scenarios.make_argv(truth, paths, opts, d + "/out", d + "/in")
         env = dict(os.environ, HOME=d + "/home", PYTHONHASHSEED="0")
         os.makedirs(d + "/home")
-        p = subprocess.run([sys.executable, "/repo/isoquant.py"] + argv, env=env, capture_output=True, text=True, cwd=d)
+        p = subprocess.run([sys.executable, os.path.join(os.environ.get("ISOQUANT_REPO", "/repo"), "isoquant.py")] + argv, env=env, capture_output=True, text=True, cwd=d)
         chroms = [c for c, _ in truth["chroms"]]
         real, _ = outputs.collect(d + "/out", chroms)
         shutil.rmtree(d, ignore_errors=True)
